@@ -9,6 +9,7 @@ import (
 	"os"
 	"path/filepath"
 	"regexp"
+	"runtime"
 	"strconv"
 	"strings"
 	"sync"
@@ -72,11 +73,13 @@ func genOf(path string) int {
 }
 
 type dbRecorder struct {
-	mu      sync.Mutex
-	tr      *traceWriter
-	keyRank map[string]int
-	barrier int32
-	opening int32 // events emitted while Open() runs are recovery steps, summarized by the "open" line
+	mu           sync.Mutex
+	tr           *traceWriter
+	keyRank      map[string]int
+	barrier      int32
+	opening      int32 // events emitted while Open() runs are recovery steps, summarized by the "open" line
+	compacting   int32 // a compaction cycle is between selection and reflect (its private readers are open)
+	compactEpoch int32
 }
 
 func (r *dbRecorder) emit(m M) {
@@ -192,12 +195,17 @@ func (r *dbRecorder) sink(name string, f map[string]any) {
 			"selected": gensOfNames(f["selected"].([]string)), "maxSize": capInt(f["maxSize"].(uint64)),
 			"ratio": int(f["ratio"].(float32)*1000 + 0.5)})
 	case "compact.select":
+		if f["compacting"].(bool) {
+			atomic.StoreInt32(&r.compacting, 1)
+			atomic.AddInt32(&r.compactEpoch, 1)
+		}
 		r.emit(M{"t": "compact.select", "selected": gensOfNames(f["selected"].([]string)), "threshold": f["threshold"], "compacting": f["compacting"]})
 	case "compact.merged":
 		r.emit(M{"t": "compact.merged", "inputs": gensOfNames(f["inputs"].([]string)), "replacement": genOf(f["replacement"].(string))})
 	case "reflect.begin":
 		r.emit(M{"t": "reflect.begin", "inputs": gensOfNames(f["inputs"].([]string))})
 	case "reflect.done":
+		atomic.StoreInt32(&r.compacting, 0)
 		r.emit(M{"t": "reflect.done", "tables": tableMetas(f["tables"].([]simpledb.VerifTable))})
 	case "open.loaded":
 		// covered by open.done
@@ -340,6 +348,10 @@ func (x *dbExec) step(db *simpledb.DB, s dbStep, g int) (*simpledb.DB, error) {
 			rec.emit(M{"t": "bgfail", "msg": "close failed: " + err.Error()})
 		}
 		return nil, nil
+	}
+	if s.Op == "obs" {
+		x.observe(db)
+		return db, nil
 	}
 	if db == nil {
 		return nil, nil // database could not be opened; the bgfail event already decides the case
@@ -536,4 +548,77 @@ func (x *dbExec) crashCheck(db *simpledb.DB, s dbStep) {
 	defer os.RemoveAll(img)
 	res := readImage(img, x.keys, s.K, 20*time.Second)
 	x.rec.emit(M{"t": "crashobs", "ok": res.Ok, "err": res.Err, "m": res.M})
+}
+
+// quiescent-point observation of descriptors, mappings and goroutines that belong to the database directory / the module (C19)
+func (x *dbExec) observe(db *simpledb.DB) {
+	tables := -1
+	if db != nil {
+		atomic.AddInt32(&x.rec.barrier, 2)
+		db.VerifFlushBarrier()
+		tables = len(db.VerifTables())
+	}
+	fds, maps, gor := 0, 0, 0
+	// settle loop: background goroutines that are about to exit need a moment
+	for try := 0; try < 400; try++ {
+		// quiescent = no compaction cycle between its selection and its reflect while we count
+		epoch := atomic.LoadInt32(&x.rec.compactEpoch)
+		busy := atomic.LoadInt32(&x.rec.compacting) != 0
+		fds, maps = countFds(x.dir), countMaps(x.dir)
+		gor = moduleGoroutines()
+		if db != nil && !busy && epoch == atomic.LoadInt32(&x.rec.compactEpoch) && atomic.LoadInt32(&x.rec.compacting) == 0 {
+			tables = len(db.VerifTables())
+			break
+		}
+		if db == nil && fds == 0 && maps == 0 && gor == 0 {
+			break
+		}
+		time.Sleep(2 * time.Millisecond)
+	}
+	x.rec.emit(M{"t": "obs", "open": db != nil, "tables": tables, "fds": fds, "maps": maps, "gor": gor})
+}
+
+func countFds(dir string) int {
+	n := 0
+	ents, err := os.ReadDir("/proc/self/fd")
+	if err != nil {
+		return -1
+	}
+	for _, e := range ents {
+		t, err := os.Readlink(filepath.Join("/proc/self/fd", e.Name()))
+		if err == nil && strings.HasPrefix(t, dir) {
+			n++
+		}
+	}
+	return n
+}
+
+func countMaps(dir string) int {
+	b, err := os.ReadFile("/proc/self/maps")
+	if err != nil {
+		return -1
+	}
+	n := 0
+	for _, ln := range strings.Split(string(b), "\n") {
+		if strings.Contains(ln, dir) {
+			n++
+		}
+	}
+	return n
+}
+
+// goroutines with a frame inside the library (not the harness' own)
+func moduleGoroutines() int {
+	buf := make([]byte, 1<<20)
+	buf = buf[:runtime.Stack(buf, true)]
+	n := 0
+	for _, g := range strings.Split(string(buf), "\n\n") {
+		if strings.Contains(g, "go-sstables/simpledb.") || strings.Contains(g, "go-sstables/sstables.") || strings.Contains(g, "go-sstables/recordio.") ||
+			strings.Contains(g, "go-sstables/wal.") {
+			if !strings.Contains(g, "main.(*dbExec)") && !strings.Contains(g, "main.runDB") {
+				n++
+			}
+		}
+	}
+	return n
 }
